@@ -65,7 +65,7 @@ pub fn evals(prop: &str) -> Vec<(&'static str, &'static str)> {
                            ("hyp_missing_path", "hyp_missing_path"), ("hyp_missing_path_gen", "hyp_missing_path_gen"),
                            ("hyp_missing_id_paths", "hyp_missing_id_paths"), ("hyp_missing_id_gen", "hyp_missing_id_gen"),
                            ("hyp_descent_unsure", "hyp_descent_unsure")]),
-        "C18" => v.extend([("prop_standalone", "prop_standalone")]),
+        "C18" => v.extend([("prop_standalone", "prop_standalone"), ("prop_standalone_registry", "prop_standalone_registry")]),
         _ => {}
     }
     v.push(("hyp_gen_ok", "hyp_gen_ok"));
@@ -506,6 +506,12 @@ pub fn cases(prop: &str, tier: &str, ctx: &mut Ctx, rng: &mut Rng) {
                         // keys of the derives registry that name no registry type path exactly - they must not
                         // interfere with the entry for `key` (round-5 seeded change C06-5: keys collapsed to segments)
                         if k == 0 {
+                            // an UNKNOWN path under two spellings, same recursive flag: validation must report
+                            // both keys, each with its own derives, whatever the hash seed (seeded change C06-6)
+                            spec.ops.push(OpSpec::DerivesFor("zz::gone::Unknown".into(), vec!["U1".into()], true));
+                            spec.ops.push(OpSpec::DerivesFor("::zz::gone::Unknown".into(), vec!["U2".into()], true));
+                            spec.ops.push(OpSpec::AttrsFor("zz::gone::Unknown<T>".into(), vec!["#[u3]".into()], false));
+                            spec.ops.push(OpSpec::AttrsFor("zz::gone::Unknown".into(), vec!["#[u4]".into()], false));
                             spec.ops.push(OpSpec::DerivesFor(format!("::{key}"), vec!["SpelledAbs".into()], false));
                             spec.ops.push(OpSpec::DerivesFor(format!("{key}<T>"), vec!["SpelledGen".into()], false));
                             spec.ops.push(OpSpec::AttrsFor(format!("::{key}"), vec!["#[spelled_abs]".into()], true));
